@@ -81,14 +81,15 @@ func init() {
 	for name, spec := range absSpecs {
 		spec := spec
 		slices["abs"+name] = func(r *rng, n int, emit func(op, res string)) {
+			all := sweepScenarios(spec.roles)
 			for i := 0; i < n; i++ {
 				role := spec.roles[r.intn(len(spec.roles))]
-				steps := genScenario(r, role, r.intn(3) > 0)
-				w, _, _ := runScenario(defaultCfg(), steps)
-				emit("# "+scenarioKey(steps), "bad-op")
-				emitAbsTrace(spec, role, steps, w, emit)
-				w.close()
+				all = append(all, scn{role, genScenario(r, role, r.intn(3) > 0)})
 			}
+			runMany(defaultCfg(), all, func(x scnResult) {
+				emit("# "+scenarioKey(x.sc.steps), "bad-op")
+				emitAbsTrace(spec, x.sc.role, x.sc.steps, x.w, emit)
+			})
 		}
 	}
 }
